@@ -48,20 +48,19 @@ Section Steps2.
     Inv T (step_ref r st) (fun v => VS v /\ valid re s' v = true).
   Proof.
     intros s' r st VS H G.
-    assert (E : sem_eq (upd st (st_A st) (st_K st) (e_other (ev (r_e r)))) (step_ref r st)).
+    assert (E : sem_eq (upd st (st_A st) (st_K st) (mkE (ev (r_e r)) ShOther false (cl (r_e r)) (op (r_e r)))) (step_ref r st)).
     { pose proof (sem_eq_absorb r st) as X.
       assert (Y : sem_eq st (if eager (r_e r) then set_poison (absorb r st) else absorb r st)).
       { destruct (eager (r_e r)); exact X. }
       unfold step_ref, upd, add_all. simpl.
       destruct Y as (a & b & c & d & e & f & g). repeat split; simpl; congruence. }
     eapply inv_sem_eq; [exact E|].
-    apply inv_upd; try exact H; try apply wfe_other; auto.
+    apply inv_upd; try exact H; try (split; simpl; discriminate); auto.
     - apply (i_AK _ _ _ H).
     - intros v _ _ He _. simpl in He. rewrite <- (g_ev _ _ _ G v eq_refl). exact He.
     - intros v _ Hq. simpl. rewrite (g_ev _ _ _ G v eq_refl). exact Hq.
     - intros v Hv HVS _. apply (i_snd _ _ _ H v Hv HVS).
     - intros Hne v Hall _. apply (i_K _ _ _ H Hne v Hall).
-    - simpl. discriminate.
   Qed.
 
   (* ---------- not ---------- *)
